@@ -426,6 +426,38 @@ def run_unit(name, tier="quick", use_cache=True, canary=True, repo=None):
                                  "success": f["name"] not in failed_fns, "backend": "verus+z3",
                                  "time_micros": sum(x.get("time-micros", 0) for x in t) if t else None,
                                  "rlimit": sum(x.get("rlimit", 0) for x in t) if t else None})
+    # ---------------------------------------------------------------- verified code compiled and run
+    for ln in open(os.path.join(unit_dir, "unit.rs")):
+        st = ln.strip()
+        if not st.startswith("//@ compile-run "):
+            continue
+        _, _, rest = st.partition("//@ compile-run ")
+        tg, _, expect = rest.partition(" ")
+        oid = "%s::compiled-run" % name
+        o = add(oid, "main", "compiled-run", tg.split(","), None,
+                "the verified code compiled with `verus --compile` and executed; stdout must match: " + expect)
+        if res["status"] != "ok" or nfail:
+            o["status"] = "unknown"
+            continue
+        import subprocess
+        binp = os.path.join(BUILD, "%s_bin" % name)
+        cmd = ["verus", gen, "--compile", "-o", binp, "--triggers-mode", "silent"] + xflags
+        try:
+            cp = subprocess.run(cmd, capture_output=True, text=True, timeout=900, cwd=BUILD)
+            rp = subprocess.run([binp], capture_output=True, text=True, timeout=300) if cp.returncode == 0 else None
+        except subprocess.TimeoutExpired:
+            cp, rp = None, None
+        res["verus"]["compile_run_cmd"] = " ".join(cmd) + " && " + binp
+        if rp is None or rp.returncode != 0:
+            res["status"] = "undecided"
+            res["undecided"].append("compile-run step did not complete: %s" % ((cp.stderr[-300:] if cp else "timeout")))
+            o["status"] = "unknown"
+        elif re.search(expect, rp.stdout):
+            o["status"] = "discharged"
+            o["text"] += " -- got: " + rp.stdout.strip()[:200]
+        else:
+            o["status"] = "failed"
+            o["diags"].append({"message": "compiled checker output: %s" % rp.stdout.strip()[:300], "kind": "run", "repo": None})
     res["obligations"] = [obl[o] for o in order]
     # ---------------------------------------------------------------- canary pass
     if canary and res["status"] == "ok" and not res.get("aborted"):
